@@ -35,6 +35,9 @@ type vC14Conn struct {
 	// something (its handshake message), respond(written) supplies what the peer sends next
 	respond func(written []byte) []byte
 	hsLen   int // length of the endpoint's handshake message at the time respond ran
+	// eofData: the last bytes of the stream are returned TOGETHER with io.EOF (allowed by the
+	// io.Reader contract, cf. iotest.DataErrReader) instead of by a separate (0, io.EOF) read
+	eofData bool
 }
 
 func (c *vC14Conn) Read(p []byte) (int, error) {
@@ -60,6 +63,9 @@ func (c *vC14Conn) Read(p []byte) (int, error) {
 	}
 	copy(p, c.data[c.pos:c.pos+n])
 	c.pos += n
+	if c.eofData && c.pos == len(c.data) && c.respond == nil {
+		return n, io.EOF
+	}
 	return n, nil
 }
 func (c *vC14Conn) Write(p []byte) (int, error)        { return c.wr.Write(p) }
@@ -538,7 +544,19 @@ func vC14Decode(c vSx) (vC14Case, bool) {
 
 // transport chunking and read-buffer size are derived from the case (they are not part of the
 // model: the observation must not depend on them)
-func vC14Shape(k vC14Case) ([]int, int) {
+type vC14ShapeT struct {
+	chunks  []int
+	buf     int
+	eofData bool
+}
+
+// set by sweeps that run one case under several transport shapes
+var vC14ForceShape *vC14ShapeT
+
+func vC14Shape(k vC14Case) ([]int, int, bool) {
+	if vC14ForceShape != nil {
+		return vC14ForceShape.chunks, vC14ForceShape.buf, vC14ForceShape.eofData
+	}
 	h := uint64(len(k.wire))*0x9e3779b97f4a7c15 + uint64(k.limit) + uint64(k.extra)*7
 	for i, b := range k.wire {
 		if i >= 64 {
@@ -563,7 +581,7 @@ func vC14Shape(k vC14Case) ([]int, int) {
 		chunks = []int{2, 0}
 	}
 	buf := r.pickInt(0, 1, 126, 256, 1024, 4096)
-	return chunks, buf
+	return chunks, buf, r.intn(3) == 0
 }
 
 type vC14Run struct {
@@ -581,12 +599,12 @@ type vC14Run struct {
 }
 
 func vC14Exec(k vC14Case) (run vC14Run) {
-	chunks, bufSize := vC14Shape(k)
+	chunks, bufSize, eofData := vC14Shape(k)
 	if k.isPart {
 		// the model of Read(p) call by call takes the whole stream to be in the bufio buffer
 		chunks, bufSize = nil, len(k.wire)+4096
 	}
-	nc := &vC14Conn{data: k.wire, chunks: chunks}
+	nc := &vC14Conn{data: k.wire, chunks: chunks, eofData: eofData}
 	defer func() {
 		if r := recover(); r != nil {
 			run.panicked = true
@@ -1911,6 +1929,34 @@ func TestVerifC14(t *testing.T) {
 	// 0. every first-violation class and every close-reason length, deterministically
 	vC14ViolationSweep(func(c vSx) { k.count("kind", "violation-sweep"); runOne(c) })
 	vC14CloseSweep(func(c vSx) { k.count("kind", "close-sweep"); runOne(c) })
+	// the transport hands over its last bytes together with io.EOF: streams cut at (and around) the end
+	// of a non-final frame, every read-buffer size and chunking that lets bufio read straight into the
+	// caller's buffer, both roles
+	for _, server := range []bool{false, true} {
+		r := &vRng{s: 0xE0F}
+		for _, l := range []int{0, 1, 5, 125, 126, 300, 511, 512, 513, 600} {
+			first := vC14Ser(vC14Mk(r, server, 2, false, r.bytes(l)))
+			hdr := len(first) - l
+			second := vC14Ser(vC14Mk(r, server, 0, false, r.bytes(7)))
+			ping := vC14Ser(vC14Mk(r, server, 9, true, []byte("p")))
+			last := vC14Ser(vC14Mk(r, server, 0, true, r.bytes(3)))
+			wires := [][]byte{first, append(append([]byte{}, first...), second...), append(append([]byte{}, first...), ping...),
+				append(append(append([]byte{}, first...), second...), last...)}
+			if l > 0 {
+				wires = append(wires, first[:len(first)-1])
+			}
+			for _, w := range wires {
+				for _, buf := range []int{1, 126, 256, 512, 1024, 4096} {
+					for _, ch := range [][]int{{hdr, 0}, nil, {1}, {hdr, l, 0}, {hdr + l, 0}} {
+						vC14ForceShape = &vC14ShapeT{ch, buf, true}
+						k.count("kind", "eof-with-data")
+						runOne(vL(vZ(vC14Fixed()), vBool(server), vZ(0), vZ(1), vB(w)))
+					}
+				}
+			}
+		}
+	}
+	vC14ForceShape = nil
 	vC14HandshakeSweep(k.rnd, k.N(60, 600), func(c vSx) { k.count("kind", "real-handshake"); runOne(c) })
 	nPart := k.N(2500, 8000)
 	for i := 0; i < nPart; i++ {
